@@ -135,7 +135,8 @@ Init ==
 Start(i, r) ==
   /\ fl[i].pc = "idle"
   /\ fl' = [fl EXCEPT ![i] = [pc |-> "take", r |-> r, obj |-> Zero, pooled |-> FALSE, seen |-> Params(Zero),
-                               apqhit |-> "", hit |-> FALSE, resp |-> ErrResp(""), s0 |-> Shared]]
+                               apqhit |-> "", hit |-> FALSE, resp |-> ErrResp(""),
+                               s0 |-> IF Slots = 1 THEN Shared ELSE [pool |-> <<>>, qc |-> {}, apq |-> {}]]]
   /\ act' = [n |-> "Start"]
   /\ UNCHANGED <<pool, qcache, apq>>
 
